@@ -5,6 +5,7 @@ package corerad
 import (
 	"errors"
 	"fmt"
+	"net"
 	"net/netip"
 	"os"
 	"strings"
@@ -38,7 +39,7 @@ type c10Case struct {
 func c10Cases() []c10Case {
 	var cs []c10Case
 	for _, mon := range []bool{false, true} {
-		for _, f := range []string{"read-syscall", "read-other", "write-syscall", "write-other", "write5-syscall", "write5-other", "timeouts", "link-change", "link-change-then-close", "link-change+rs", "link-change-at-tx", "isolated-timeouts"} {
+		for _, f := range []string{"read-syscall", "read-other", "write-syscall", "write-other", "write5-syscall", "write5-other", "timeouts", "link-change", "link-change-then-close", "link-change+rs", "link-change-at-tx", "isolated-timeouts", "read-enfile", "read-eintr"} {
 			if mon && strings.HasPrefix(f, "write") {
 				continue
 			}
@@ -73,7 +74,7 @@ func c10Cases() []c10Case {
 }
 
 func c10Recoverable(f string) bool {
-	return f == "read-syscall" || f == "write-syscall" || f == "write5-syscall" || f == "link-change" || f == "link-change+rs" || f == "link-change-at-tx" || f == "link-change-then-close" || f == "write-unicast-pending-syscall" || f == "two-writes-fail-syscall"
+	return f == "read-syscall" || f == "read-enfile" || f == "read-eintr" || f == "write-syscall" || f == "write5-syscall" || f == "link-change" || f == "link-change+rs" || f == "link-change-at-tx" || f == "link-change-then-close" || f == "write-unicast-pending-syscall" || f == "two-writes-fail-syscall"
 }
 
 func c10Scenario(c c10Case) *vsched.Scenario {
@@ -174,6 +175,14 @@ func c10Scenario(c c10Case) *vsched.Scenario {
 					inject(inMsg{err: sysErr})
 				case "read-other":
 					inject(inMsg{err: other})
+				case "read-enfile", "read-eintr":
+					// A receive error whose errno calls itself "temporary" (ENFILE, EINTR) is still a
+					// receive error, not a timeout: the session ends and the interface is re-dialled.
+					en := syscall.ENFILE
+					if c.Fault == "read-eintr" {
+						en = syscall.EINTR
+					}
+					inject(inMsg{err: &net.OpError{Op: "read", Net: "ip6:ipv6-icmp", Err: os.NewSyscallError("recvmsg", en)}})
 				case "timeouts":
 					for i := 0; i < 5; i++ {
 						inject(inMsg{err: timeoutErr{}})
@@ -398,7 +407,7 @@ func c10Scenario(c c10Case) *vsched.Scenario {
 func TestVerifC10(t *testing.T) {
 	r := ev.Begin("C10", "teardown")
 	defer r.End(t)
-	r.Rule = "executions = goroutine schedules within the deviation bound of the instrumented real Advertiser and Monitor (real Dialer, real dial() over fakes) with one fault injected while running: ReadFrom error (syscall / other), 3rd WriteTo error (syscall / other), five receive timeouts, eight isolated receive timeouts each followed by a received message (no failure: nothing may be torn down), a link-state change (also followed by the watcher halting, together with a solicitation, and at the instant a held-back multicast RA is due; the last two also at bound 2 in the quick tier); x re-dial answers {ok, link-not-ready once}; x cancellation {none, right after the fault, during the back-off}; + 5 of the faults on a unicast-only advertiser; oracle on the ordered log: recoverable => old connection cleaned up (left group + closed once) then a new one opened within 1s, given an initial RA, a periodic RA and an answer to a solicitation sent after the re-dial, unrecoverable => Run returns an error within 1s after cleanup, never any I/O on the old connection after close / re-dial / return, cancellation => return within 1s (nil during back-off)"
+	r.Rule = "executions = goroutine schedules within the deviation bound of the instrumented real Advertiser and Monitor (real Dialer, real dial() over fakes) with one fault injected while running: ReadFrom error (syscall ENETDOWN / ENFILE / EINTR / other), 3rd WriteTo error (syscall / other), five receive timeouts, eight isolated receive timeouts each followed by a received message (no failure: nothing may be torn down), a link-state change (also followed by the watcher halting, together with a solicitation, and at the instant a held-back multicast RA is due; the last two also at bound 2 in the quick tier); x re-dial answers {ok, link-not-ready once}; x cancellation {none, right after the fault, during the back-off}; + 5 of the faults on a unicast-only advertiser; oracle on the ordered log: recoverable => old connection cleaned up (left group + closed once) then a new one opened within 1s, given an initial RA, a periodic RA and an answer to a solicitation sent after the re-dial, unrecoverable => Run returns an error within 1s after cleanup, never any I/O on the old connection after close / re-dial / return, cancellation => return within 1s (nil during back-off)"
 	opts := exploreOpts{Bound: 1}
 	if r.Thorough() {
 		opts.Bound = 2
